@@ -182,7 +182,7 @@ class HRLexer(Lexer):
             Rule(r"(str\.suffixof)", FunctionCallAdapter(self.mgr.StrSuffixOf, 100), False), # str_suffixof
             Rule(r"(str\.to\.int)", FunctionCallAdapter(self.mgr.StrToInt, 100), False), # str_to_int
             Rule(r"(int\.to\.str)", FunctionCallAdapter(self.mgr.IntToStr, 100), False), # int_to_str
-            Rule(r"'(.*?)'", self.quoted_identifier, True), # quoted identifiers
+            Rule(r"'((?:[^'\\]|\\.)*)'", self.quoted_identifier, True), # quoted identifiers
             Rule(r"([A-Za-z_][A-Za-z0-9_]*)", self.identifier, True),# identifiers
             Rule(r"(.)", self.lexing_error, True), # input error
         ]
@@ -231,6 +231,8 @@ class HRLexer(Lexer):
 
     def quoted_identifier(self, read):
         # A quoted name is always a symbol, never a keyword ('True', 'Int', ...)
+        # The printer escapes quotes and backslashes inside the name
+        read = re.sub(r"\\(.)", r"\1", read)
         return Identifier(read, env=self.env)
 
     def UMinusOrBvNeg(self, x):
